@@ -398,25 +398,26 @@ defvjp(anp.tile, grad_tile)
 
 
 def grad_kron(argnum, ans, orig_A, orig_B):
-    # kron has different promotion rules than dot. the reshapes are necessary if
-    # and only if (1) orig_B is 1D or (2) orig_A and/or orig_B are 0D
+    # kron pads the operand of lower dimension with leading axes of length one;
+    # entry (i0*b0 + j0, i1*b1 + j1, ...) of the result is A[i0, i1, ...] * B[j0, j1, ...]
     orig_A_shape = anp.shape(orig_A)
     orig_B_shape = anp.shape(orig_B)
+    nd = max(len(orig_A_shape), len(orig_B_shape))
+    A_shape = (1,) * (nd - len(orig_A_shape)) + orig_A_shape
+    B_shape = (1,) * (nd - len(orig_B_shape)) + orig_B_shape
+    # interleaved shape (a0, b0, a1, b1, ...)
+    G_shape = tuple(d for pair in zip(A_shape, B_shape) for d in pair)
 
     def vjp(G):
-        A, B = anp.atleast_2d(orig_A), anp.atleast_2d(orig_B)
-        shape = list(A.shape + B.shape)
-        n = anp.ndim(A)
-        shape[n - 1], shape[n] = shape[n], shape[n - 1]
-        reshaped_G = anp.swapaxes(anp.reshape(G, shape), n - 1, n)
+        reshaped_G = anp.reshape(G, G_shape)
         if argnum == 0:
-            return match_complex(
-                orig_A, anp.reshape(anp.tensordot(reshaped_G, B, axes=anp.ndim(B)), orig_A_shape)
-            )
+            B = anp.reshape(orig_B, B_shape)
+            out = anp.tensordot(reshaped_G, B, axes=(list(range(1, 2 * nd, 2)), list(range(nd))))
+            return match_complex(orig_A, anp.reshape(out, orig_A_shape))
         else:
-            return match_complex(
-                orig_B, anp.reshape(anp.tensordot(A, reshaped_G, axes=anp.ndim(A)), orig_B_shape)
-            )
+            A = anp.reshape(orig_A, A_shape)
+            out = anp.tensordot(reshaped_G, A, axes=(list(range(0, 2 * nd, 2)), list(range(nd))))
+            return match_complex(orig_B, anp.reshape(out, orig_B_shape))
 
     return vjp
 
